@@ -1,7 +1,6 @@
 use std::{path::PathBuf, str::FromStr, sync::Arc};
 
 use faststr::FastStr;
-use heck::ToUpperCamelCase;
 use itertools::Itertools;
 use normpath::PathExt;
 use pilota_thrift_parser as thrift_parser;
@@ -117,13 +116,12 @@ impl ThriftLower {
     }
 
     fn lower_service(&self, service: &thrift_parser::Service) -> Vec<ir::Item> {
-        let service_name = if self
-            .service_name_duplicates
-            .contains(&service.name.to_upper_camel_case())
-        {
+        // (upper_camel_ident keeps leading underscores: `service _1` must not give `1FooArgsSend`)
+        let service_camel = (&*service.name).upper_camel_ident().to_string();
+        let service_name = if self.service_name_duplicates.contains(&service_camel) {
             service.name.to_string()
         } else {
-            service.name.to_upper_camel_case()
+            service_camel
         };
 
         let mut function_names: FxHashMap<FastStr, Vec<String>> = FxHashMap::default();
@@ -635,7 +633,7 @@ impl Lower<Arc<thrift_parser::File>> for ThriftLower {
             f.items.iter().for_each(|item| {
                 if let thrift_parser::Item::Service(service) = item {
                     service_names
-                        .entry(service.name.to_upper_camel_case())
+                        .entry((&*service.name).upper_camel_ident().to_string())
                         .or_default()
                         .push(service.name.to_string());
                 }
